@@ -15,162 +15,386 @@ import (
 	"verif/sim/core"
 )
 
-// ctl is the main scripted client: open, register, connect, start the reader
-// and writer, end the connection, close everything.
+// handles are the library objects all sessions of a run share: one TNC
+// socket, one registered Port (and what hangs off it).
+type handles struct {
+	tnc         *agwpe.TNC
+	port, port2 *agwpe.Port
+	tp          *agwpe.TNCPort
+	ln          net.Listener // the Port's listener, kept from one accept session to the next
+}
+
+// stepper hands out the plan's step delays of one scripted goroutine.
+type stepper struct {
+	r    *run
+	tape []int
+	i    int
+}
+
+func (s *stepper) next() {
+	s.r.pause(ms(core.TapeAt(s.tape, s.i, 1)))
+	s.i++
+}
+
+// closeAll closes the second port, the port and the TNC (once; later calls do
+// nothing). After it no further session is started.
+func (r *run) closeAll(h *handles, st *stepper) {
+	r.mu.Lock()
+	tnc, port, port2, tp := h.tnc, h.port, h.port2, h.tp
+	h.tnc, h.port, h.port2, h.tp, h.ln = nil, nil, nil, nil, nil
+	if tnc != nil || port != nil || port2 != nil || tp != nil {
+		r.portGone = true
+	}
+	r.mu.Unlock()
+	if port2 != nil {
+		st.next()
+		r.call(nil, "port2-close", func() error { return port2.Close() })
+	}
+	if tp != nil {
+		st.next()
+		r.call(nil, "tncport-close", func() error { return tp.Close() })
+		return
+	}
+	if port != nil {
+		st.next()
+		r.call(nil, "port-close", func() error { return port.Close() })
+	}
+	if tnc != nil {
+		st.next()
+		r.call(nil, "tnc-close", func() error { return tnc.Close() })
+	}
+}
+
+func (r *run) gone() bool {
+	r.mu.Lock()
+	defer r.mu.Unlock()
+	return r.portGone
+}
+
+// ctl is the main scripted client: open, register, run the sessions one after
+// the other (or overlapping, where the plan says so), close everything.
 func (r *run) ctl() {
 	p := r.p
-	step := 0
-	next := func() { r.pause(r.stepDelay(step)); step++ }
+	h := &handles{}
+	st := &stepper{r: r, tape: p.Client.StepDelayMs}
+	next := st.next
 	r.pause(ms(p.Client.OpenDelayMs))
-
-	var tnc *agwpe.TNC
-	var port, port2 *agwpe.Port
-	var tp *agwpe.TNCPort
-	closeAll := func() {
-		if port2 != nil {
-			next()
-			r.call("port2-close", func() error { return port2.Close() })
-		}
-		if tp != nil {
-			next()
-			r.call("tncport-close", func() error { return tp.Close() })
-			return
-		}
-		if port != nil {
-			next()
-			r.call("port-close", func() error { return port.Close() })
-		}
-		if tnc != nil {
-			next()
-			r.call("tnc-close", func() error { return tnc.Close() })
-		}
-	}
-	defer closeAll()
+	defer r.closeAll(h, st)
 
 	if p.OpenCombined {
-		if !r.call("open-port", func() (err error) { tp, err = agwpe.OpenPortTCP(tncAddr, clamp(p.Port, 0, 255), p.MyCall); return }) || tp == nil {
-			tp = nil
+		if !r.call(nil, "open-port", func() (err error) { h.tp, err = agwpe.OpenPortTCP(tncAddr, clamp(p.Port, 0, 255), p.MyCall); return }) || h.tp == nil {
+			h.tp = nil
 			return
 		}
-		tnc, port = &tp.TNC, &tp.Port
+		h.tnc, h.port = &h.tp.TNC, &h.tp.Port
 	} else {
-		if !r.call("open", func() (err error) { tnc, err = agwpe.OpenTCP(tncAddr); return }) || tnc == nil {
-			tnc = nil
+		if !r.call(nil, "open", func() (err error) { h.tnc, err = agwpe.OpenTCP(tncAddr); return }) || h.tnc == nil {
+			h.tnc = nil
 			return
 		}
 		if p.Client.Ping == "before" {
 			next()
-			r.call("version", func() error { _, err := tnc.Version(); return err })
+			r.call(nil, "version", func() error { _, err := h.tnc.Version(); return err })
 		}
 		next()
-		if !r.call("register", func() (err error) { port, err = tnc.RegisterPort(clamp(p.Port, 0, 255), p.MyCall); return }) || port == nil {
-			port = nil
+		if !r.call(nil, "register", func() (err error) { h.port, err = h.tnc.RegisterPort(clamp(p.Port, 0, 255), p.MyCall); return }) || h.port == nil {
+			h.port = nil
 			return
 		}
 		if p.Second != nil {
 			next()
-			if !r.call("register2", func() (err error) {
-				port2, err = tnc.RegisterPort(clamp(p.Second.Port, 0, 255), p.Second.Call)
+			if !r.call(nil, "register2", func() (err error) {
+				h.port2, err = h.tnc.RegisterPort(clamp(p.Second.Port, 0, 255), p.Second.Call)
 				return
 			}) {
-				port2 = nil
+				h.port2 = nil
 			}
 		}
 	}
 	if p.Client.Ping == "after" {
 		next()
-		r.call("ping", func() error { return tnc.Ping() })
+		r.call(nil, "ping", func() error { return h.tnc.Ping() })
+	}
+
+	// sessions
+	var bg []*core.GoResult // sessions of the current group that run on their own goroutines
+	join := func() {
+		core.WaitAll(1000*time.Hour, bg...)
+		for _, g := range bg {
+			if g.Panic != nil {
+				r.sim.Violate(prop13, "harness", "ctl-panic", "%v\n%s", g.Panic, g.Stack)
+			}
+		}
+		bg = nil
+	}
+	skip := func(se *sess, why string) {
+		r.mu.Lock()
+		se.skipped = why
+		r.mu.Unlock()
+		close(se.connectDone)
+		r.sim.Logf("cli: %ssession not started: %s", tag(se), why)
+	}
+	for i, se := range r.ss {
+		if i > 0 {
+			prev := r.ss[i-1]
+			switch {
+			case se.group == prev.group:
+				// overlap: the session before this one keeps running
+				<-prev.connectDone
+				r.waitRefusal()
+			case se.sp.Start == "hasty":
+				join()
+			default:
+				join()
+				r.quiesce()
+			}
+			r.pause(ms(se.sp.GapMs))
+		}
+		if r.gone() {
+			skip(se, "port-closed")
+			continue
+		}
+		if i > 0 {
+			if mdl := r.session(); mdl != nil {
+				if state, _, ok := mdl.ConnState(se.key); ok && (state == "connected" || state == "connecting") {
+					// the earlier connection with this station never ended (a Close that
+					// failed or was not made): the station cannot connect a second time
+					skip(se, "station-still-connected")
+					continue
+				}
+			}
+		}
+		sst := st
+		if i > 0 {
+			sst = &stepper{r: r, tape: se.sp.Client.StepDelayMs}
+		}
+		alone := (i == 0 || r.ss[i-1].group != se.group) && (i+1 == len(r.ss) || r.ss[i+1].group != se.group)
+		if alone {
+			r.runSession(se, h, sst)
+			continue
+		}
+		bg = append(bg, core.Go(func() { r.runSession(se, h, sst) }))
+		if i+1 == len(r.ss) || r.ss[i+1].group != se.group {
+			join()
+		}
+	}
+	join()
+	r.closeAll(h, st)
+	// whatever a session left behind (a writer or reader it stopped waiting for)
+	// ends now that the port is closed
+	for _, se := range r.ss {
+		r.mu.Lock()
+		rd, wr, conn := se.rd, se.wr, se.conn
+		r.mu.Unlock()
+		if wr != nil {
+			core.WaitAll(opBudget, wr)
+		}
+		if rd != nil && !core.WaitAll(2*time.Minute, rd) && conn != nil {
+			core.WaitAll(time.Minute, core.Go(func() { r.drain(conn) }))
+		}
+	}
+}
+
+// quiesce returns when nothing is on its way any more: no bytes in flight in
+// either direction, no reply the model still owes, no refusal of a foreign
+// inbound connection under way. Sessions of different groups are separated
+// by it, so that nothing of an earlier connection (a late data frame, the
+// confirmation of a disconnect) can be taken for traffic of the next
+// connection with the same station -- AGWPE frames carry callsigns, not
+// connection identifiers.
+func (r *run) quiesce() {
+	p := r.p
+	mdl := r.session()
+	lat := clamp(maxOf(p.Link.BA.LatUs, 0), 0, 1000000) + clamp(maxOf(p.Link.AB.LatUs, 0), 0, 1000000)
+	q := ms(clamp(p.TNC.DiscAckLatMs, 0, 60000) + clamp(maxOf(p.TNC.ReplyLatUs, 0), 0, 10000000)/1000 + agwtnc.HeaderLen*lat/1000 + 50)
+	for i := 0; i < 5000; i++ {
+		r.pause(q)
+		if mdl == nil {
+			return
+		}
+		if r.refusing(mdl) {
+			continue
+		}
+		if !mdl.Busy() {
+			return
+		}
+	}
+	r.sim.Logf("cli: the link never went quiet")
+}
+
+// refusing: may the library still be busy refusing an inbound connection
+// nobody accepted (flush, disconnect request, then up to a minute for a
+// confirmation this TNC may never send)? Until that is over the port's
+// inbound handler does not take the next connect notification for the
+// callsign -- which every answer to a Dial is, too --, a second one stalls the
+// port's demultiplexer and frames behind it are dropped (same policy as inside
+// a session, see pump).
+func (r *run) refusing(mdl *agwtnc.Session) bool {
+	r.mu.Lock()
+	since, key := r.refusalSince, r.refusalKey
+	r.mu.Unlock()
+	if since == 0 || r.sim.Now()-since >= 3*time.Minute {
+		return false
+	}
+	st, _, _ := mdl.ConnState(key) // "connected" until the library's disconnect request arrives
+	return st == "connected" || r.p.TNC.NoDiscAck
+}
+
+// waitRefusal holds an overlapping session back while a refusal is under way.
+func (r *run) waitRefusal() {
+	mdl := r.session()
+	for i := 0; i < 5000 && mdl != nil && r.refusing(mdl); i++ {
+		r.pause(time.Second)
+	}
+}
+
+// runSession is one session: connect (Dial or Accept), run reader, writer and
+// closer, wait for the TNC script, end the connection.
+func (r *run) runSession(se *sess, h *handles, st *stepper) {
+	p, sp := r.p, se.sp
+	next := st.next
+	connectSignalled := false
+	signal := func() {
+		if !connectSignalled {
+			connectSignalled = true
+			close(se.connectDone)
+		}
+	}
+	r.mu.Lock()
+	tnc, port := h.tnc, h.port
+	r.mu.Unlock()
+	if port == nil {
+		r.mu.Lock()
+		se.skipped = "port-closed"
+		r.mu.Unlock()
+		signal()
+		return
+	}
+	r.mu.Lock()
+	r.running++
+	r.mu.Unlock()
+	defer func() {
+		signal()
+		r.mu.Lock()
+		r.running--
+		se.ended, se.endedAt = true, r.sim.Now()
+		r.mu.Unlock()
+	}()
+	if se.idx > 0 {
+		if mdl := r.session(); mdl != nil {
+			mdl.SetConnect(se.key, sp.Connect, sp.ConnectLatMs)
+		}
 	}
 
 	// connect
 	var conn net.Conn
 	next()
-	if p.Mode == "accept" {
-		conn = r.accept(port)
+	r.mu.Lock()
+	se.attempted, se.attemptAt = true, r.sim.Now()
+	r.mu.Unlock()
+	if sp.Mode == "accept" {
+		conn = r.accept(se, h, port)
 	} else {
 		ctx, cancel := context.WithCancel(context.Background())
 		defer cancel()
-		if p.DialTimeoutMs > 0 {
+		if sp.DialTimeoutMs > 0 {
 			var c2 context.CancelFunc
-			ctx, c2 = context.WithTimeout(ctx, ms(p.DialTimeoutMs))
+			ctx, c2 = context.WithTimeout(ctx, ms(sp.DialTimeoutMs))
 			defer c2()
 		}
 		var dialled net.Conn
+		r.mu.Lock()
+		se.dialling = true
+		r.mu.Unlock()
 		dl := core.Go(func() {
-			r.call("dial", func() (err error) {
-				if p.UseURL {
-					dialled, err = port.DialURLContext(ctx, &transport.URL{Scheme: "ax25", Target: p.Remote, Digis: p.Digis})
+			r.call(se, "dial", func() (err error) {
+				if sp.UseURL {
+					dialled, err = port.DialURLContext(ctx, &transport.URL{Scheme: "ax25", Target: sp.Remote, Digis: sp.Digis})
 				} else {
-					dialled, err = port.DialContext(ctx, p.Remote, p.Digis...)
+					dialled, err = port.DialContext(ctx, sp.Remote, sp.Digis...)
 				}
 				return
 			})
 		})
 		// a dial without deadline waits for the TNC for ever: the application gives up
-		if !core.WaitAll(ms(p.TNC.ConnectLatMs)+2*time.Minute, dl) {
+		if !core.WaitAll(ms(sp.ConnectLatMs)+2*time.Minute, dl) {
 			r.mu.Lock()
-			r.dialAbandoned = true
+			se.dialAbandoned = true
 			r.mu.Unlock()
-			r.sim.Logf("cli: dial abandoned")
+			r.sim.Logf("cli: %sdial abandoned", tag(se))
 			cancel()
 			if !core.WaitAll(2*time.Minute, dl) {
 				// a TNC that never confirms the disconnect keeps the dial blocked until the port closes
-				closeAll()
-				tnc, port, port2, tp = nil, nil, nil, nil
+				r.closeAll(h, st)
 				core.WaitAll(opBudget, dl)
+				r.mu.Lock()
+				se.dialling = false
+				r.mu.Unlock()
 				return
 			}
 		}
+		r.mu.Lock()
+		se.dialling = false
+		r.mu.Unlock()
 		conn = dialled
 	}
+	signal()
 	if conn == nil {
 		return
 	}
+	r.mu.Lock()
+	se.established, se.conn = true, conn
+	for _, o := range r.ss {
+		if o != se && o.established && !o.ended {
+			r.overlapped = true
+		}
+	}
+	r.mu.Unlock()
 
-	rd := core.Go(func() { r.reader(conn) })
-	wr := core.Go(func() { r.writer(conn, tnc, port) })
+	rd := core.Go(func() { r.reader(se, conn) })
+	wr := core.Go(func() { r.writer(se, conn, tnc, port) })
+	r.mu.Lock()
+	se.rd, se.wr = rd, wr
+	r.mu.Unlock()
 	var cl *core.GoResult
-	if p.Client.CloserAtMs > 0 && p.Regime != "burst" { // burst: see pump (mutex wedge)
+	if sp.Client.CloserAtMs > 0 && p.Regime != "burst" { // burst: see pump (mutex wedge)
 		cl = core.Go(func() {
-			r.pause(ms(p.Client.CloserAtMs))
+			r.pause(ms(sp.Client.CloserAtMs))
 			r.mu.Lock()
-			r.closerStarted, r.closerStartedAt = true, r.sim.Now()
+			se.closerStarted, se.closerStartedAt = true, r.sim.Now()
 			r.mu.Unlock()
-			r.call("close", func() error { return conn.Close() })
+			r.call(se, "close", func() error { return conn.Close() })
 		})
 	}
 
 	// let the writer finish (a Write may poll for ever: bounded wait)
-	if !core.WaitAll(90*time.Second+ms(60*len(p.Client.Writes)), wr) {
+	if !core.WaitAll(90*time.Second+ms(60*len(sp.Client.Writes)), wr) {
 		r.mu.Lock()
-		r.writeStuck = true
+		se.writeStuck = true
 		r.mu.Unlock()
-		r.sim.Logf("cli: writer still busy")
+		r.sim.Logf("cli: %swriter still busy", tag(se))
 	}
 	// let the TNC script finish
 	deadline := r.sim.Now() + opBudget
 	for r.sim.Now() < deadline {
 		r.mu.Lock()
-		done := r.pumpDone || r.readDone || !r.have
+		done := se.pumpDone || se.readDone || !se.have
 		r.mu.Unlock()
 		if done {
 			break
 		}
 		r.pause(100 * time.Millisecond)
 	}
-	// Let the reader empty the receive queue before anything polls the TNC again
-	// (see pump: a full queue plus a poll wedges the library on a mutex and with
-	// it the simulated clock; in real time the reader would simply catch up).
 	// Quiet period: whatever the script sent last has arrived by then.
-	quiet := r.giveUpAfter()
-	if p.Script.End == "remote-disconnect" {
-		quiet += ms(p.Script.EndDelayMs)
+	quiet := r.giveUpAfter(se)
+	if sp.Script.End == "remote-disconnect" {
+		quiet += ms(sp.Script.EndDelayMs)
 	}
 	r.pause(quiet)
 	// Let the reader empty the receive queue before anything polls the TNC again
 	// (see pump: a full queue plus a poll wedges the library on a mutex and with
 	// it the simulated clock; in real time the reader would simply catch up).
-	readerIdle := r.waitReaderIdle()
+	readerIdle := r.waitReaderIdle(se)
 	for i := 0; i < 1000 && readerIdle; i++ {
 		// a slow link may still be delivering what the script wrote long ago
 		s := r.session()
@@ -178,31 +402,33 @@ func (r *run) ctl() {
 			break
 		}
 		r.pause(quiet)
-		readerIdle = r.waitReaderIdle()
+		readerIdle = r.waitReaderIdle(se)
 	}
 	r.mu.Lock()
-	if s := r.sess; s != nil && r.have && readerIdle && r.pumpDone && r.readStarted && s.InFlight() == 0 {
+	if s := r.sess; s != nil && se.have && readerIdle && se.pumpDone && se.readStarted && s.InFlight() == 0 {
 		// everything the TNC sent has had time to arrive and the reader is waiting
 		// for more: what it has not got by now it will never get
-		r.settled = true
-		r.settledRead = len(r.readData)
-		r.settledSent, _ = s.SentBytes(r.key)
-		r.settledAt = r.sim.Now()
+		se.settled = true
+		se.settledRead = len(se.readData)
+		se.settledSent = sum(s.SentLens(se.id))
+		se.settledAt = r.sim.Now()
 	}
 	r.mu.Unlock()
-	switch p.Script.End {
+	last := se.idx == len(r.ss)-1
+	switch sp.Script.End {
 	case "remote-disconnect":
 		// the script disconnects after its last frame; wait for the reader to see it
 		core.WaitAll(opBudget, rd)
 	case "tnc-close":
-		r.pause(ms(p.Script.EndDelayMs))
-		if cl != nil {
-			core.WaitAll(opBudget, cl)
+		r.pause(ms(sp.Script.EndDelayMs))
+		if last { // (normalise: only the last session of a plan ends like this)
+			if cl != nil {
+				core.WaitAll(opBudget, cl)
+			}
+			r.closeAll(h, st)
 		}
-		closeAll()
-		tnc, port, port2, tp = nil, nil, nil, nil
 	default:
-		r.pause(ms(p.Script.EndDelayMs))
+		r.pause(ms(sp.Script.EndDelayMs))
 	}
 	if cl != nil {
 		// a Close by the closer goroutine may be under way: the application does
@@ -211,10 +437,19 @@ func (r *run) ctl() {
 	}
 	next()
 	if readerIdle {
-		r.call("close", func() error { return conn.Close() })
+		r.call(se, "close", func() error { return conn.Close() })
+		r.mu.Lock()
+		se.connClosed = true
+		r.mu.Unlock()
 	}
-	closeAll()
-	tnc, port, port2, tp = nil, nil, nil, nil
+	r.mu.Lock()
+	only := last && r.running == 1
+	r.mu.Unlock()
+	if only {
+		// the run's last connection: the application closes the port right away
+		// (which also ends a Write that is still polling)
+		r.closeAll(h, st)
+	}
 	core.WaitAll(opBudget, wr)
 	core.WaitAll(2*time.Minute, rd)
 	// Drain whatever is still queued so that no library goroutine stays blocked
@@ -222,50 +457,93 @@ func (r *run) ctl() {
 	core.WaitAll(time.Minute, core.Go(func() { r.drain(conn) }))
 }
 
-func (r *run) accept(port *agwpe.Port) net.Conn {
-	p := r.p
-	var ln net.Listener
-	if !r.call("listen", func() (err error) { ln, err = port.Listen(); return }) || ln == nil {
-		return nil
+func sum(v []int) int {
+	n := 0
+	for _, x := range v {
+		n += x
 	}
-	r.scheduleInbound(ms(p.Script.InboundDelayMs))
-	if p.Script.AcceptLate {
+	return n
+}
+
+func (r *run) accept(se *sess, h *handles, port *agwpe.Port) net.Conn {
+	sp := se.sp
+	r.mu.Lock()
+	ln := h.ln
+	r.mu.Unlock()
+	if ln == nil {
+		if !r.call(se, "listen", func() (err error) { ln, err = port.Listen(); return }) || ln == nil {
+			return nil
+		}
+		r.mu.Lock()
+		h.ln = ln
+		r.mu.Unlock()
+	}
+	r.scheduleInbound(se, ms(sp.Script.InboundDelayMs))
+	if sp.Script.AcceptLate {
 		// nobody is accepting when the inbound connection is announced
-		r.pause(ms(2000 + p.Script.InboundDelayMs))
+		r.pause(ms(2000 + sp.Script.InboundDelayMs))
 	}
 	var conn net.Conn
+	r.mu.Lock()
+	r.accepting++
+	r.mu.Unlock()
 	acc := core.Go(func() {
-		r.call("accept", func() (err error) { conn, err = ln.Accept(); return })
+		r.call(se, "accept", func() (err error) { conn, err = ln.Accept(); return })
 	})
-	if !core.WaitAll(ms(p.Script.InboundDelayMs)+40*time.Second, acc) {
-		r.call("listener-close", func() error { return ln.Close() })
+	if !core.WaitAll(ms(sp.Script.InboundDelayMs)+40*time.Second, acc) {
+		r.call(se, "listener-close", func() error { return ln.Close() })
+		r.mu.Lock()
+		if h.ln == ln {
+			h.ln = nil
+		}
+		r.mu.Unlock()
 		core.WaitAll(time.Minute, acc)
 	}
+	r.mu.Lock()
+	r.accepting--
+	if conn == nil && se.inboundSent && se.inboundAt > r.refusalSince {
+		// the call was announced and nobody took it: the library refuses it
+		r.refusalSince, r.refusalKey = se.inboundAt, se.key
+	}
+	r.mu.Unlock()
 	if conn != nil {
+		if ra := conn.RemoteAddr(); ra == nil || ra.String() != sp.Remote {
+			// some other station's call was answered (cannot happen with the scripts
+			// as generated): not the connection this session is about
+			r.sim.Logf("cli: %saccept returned a connection with %v, not with %s", tag(se), ra, sp.Remote)
+			core.WaitAll(opBudget, core.Go(func() { r.call(se, "close-stranger", func() error { return conn.Close() }) }))
+			return nil
+		}
 		// The data script starts once the application has the connection. (Data
 		// for a connection the library is busy refusing fills a queue nobody
 		// reads and dead-locks the library's refusal for good.)
 		r.mu.Lock()
-		s, k, ok := r.sess, r.inboundKey, r.inboundSent
+		s, id, ok := r.sess, se.inboundID, se.inboundSent
 		r.mu.Unlock()
-		if s != nil && ok {
-			r.startPump(s, k)
+		if s != nil && ok && id >= 0 {
+			r.startPump(se, s, id)
 		}
 	}
 	return conn
 }
 
-func (r *run) scheduleInbound(d time.Duration) {
+func (r *run) scheduleInbound(se *sess, d time.Duration) {
 	r.at(d, func() {
 		s := r.session()
 		if s == nil {
 			return
 		}
+		if st, _, ok := s.ConnState(se.key); ok && (st == "connected" || st == "connecting") {
+			return // one station cannot connect twice at the same time
+		}
 		r.mu.Lock()
-		r.inboundSent, r.inboundAt = true, r.sim.Now()
-		r.inboundKey = agwtnc.ConnKey{Port: byte(clamp(r.p.Port, 0, 255)), Local: r.p.MyCall, Remote: r.p.Remote}
+		se.inboundSent, se.inboundAt = true, r.sim.Now()
 		r.mu.Unlock()
-		s.InboundConnect(byte(clamp(r.p.Port, 0, 255)), r.p.Remote, r.p.MyCall)
+		s.InboundConnect(se.key.Port, se.key.Remote, se.key.Local)
+		id := s.ConnID(se.key)
+		r.mu.Lock()
+		se.inboundID = id
+		r.mu.Unlock()
 	})
 }
 
@@ -273,17 +551,17 @@ func isTimeout(err error) bool {
 	return errors.Is(err, context.DeadlineExceeded)
 }
 
-func (r *run) reader(conn net.Conn) {
-	p := r.p
+func (r *run) reader(se *sess, conn net.Conn) {
+	c := se.sp.Client
 	r.mu.Lock()
-	r.readStarted = true
+	se.readStarted = true
 	r.mu.Unlock()
 	timeouts, zeros := 0, 0
 	finish := func(why string) {
 		r.mu.Lock()
-		r.readErr, r.readDone, r.readDoneAt = why, true, r.sim.Now()
+		se.readErr, se.readDone, se.readDoneAt = why, true, r.sim.Now()
 		r.mu.Unlock()
-		r.sim.Logf("cli: reader ends: %s", why)
+		r.sim.Logf("cli: %sreader ends: %s", tag(se), why)
 		if why != "EOF" && !strings.HasPrefix(why, "error:") {
 			// The scripted reader gave up (panic, limits). Keep the receive queue
 			// moving: a full queue blocks the library's demultiplexer while it
@@ -292,21 +570,21 @@ func (r *run) reader(conn net.Conn) {
 		}
 	}
 	for i := 0; i < 200000; i++ {
-		size := clamp(core.TapeAt(p.Client.ReadBuf, i, 4096), 1, 16384)
-		if p.Client.ReadDeadlineMs > 0 {
-			conn.SetReadDeadline(time.Now().Add(ms(p.Client.ReadDeadlineMs)))
+		size := clamp(core.TapeAt(c.ReadBuf, i, 4096), 1, 16384)
+		if c.ReadDeadlineMs > 0 {
+			conn.SetReadDeadline(time.Now().Add(ms(c.ReadDeadlineMs)))
 		}
 		buf := make([]byte, size)
 		r.mu.Lock()
-		if fs := frameSizeAt(p.Script.Frames, len(r.readData)); fs > size {
-			r.smallBufHit = true
+		if fs := frameSizeAt(se.frames(), len(se.readData)); fs > size {
+			se.smallBufHit = true
 		}
 		r.mu.Unlock()
 		var n int
 		var err error
 		panicked := false
 		r.mu.Lock()
-		r.inRead, r.inReadSince = true, r.sim.Now()
+		se.inRead, se.inReadSince = true, r.sim.Now()
 		r.mu.Unlock()
 		func() {
 			defer func() {
@@ -318,11 +596,11 @@ func (r *run) reader(conn net.Conn) {
 			n, err = conn.Read(buf)
 		}()
 		r.mu.Lock()
-		r.inRead = false
+		se.inRead = false
 		r.mu.Unlock()
 		if panicked {
 			r.mu.Lock()
-			r.readPanic = true
+			se.readPanic = true
 			r.mu.Unlock()
 			finish("panic")
 			return
@@ -333,11 +611,11 @@ func (r *run) reader(conn net.Conn) {
 			return
 		}
 		r.mu.Lock()
-		r.readData = append(r.readData, buf[:n]...)
-		r.readCalls++
-		total := len(r.readData)
+		se.readData = append(se.readData, buf[:n]...)
+		se.readCalls++
+		total := len(se.readData)
 		r.mu.Unlock()
-		r.sim.Logf("cli: read buf=%d -> %d,%v total=%d", size, n, err, total)
+		r.sim.Logf("cli: %sread buf=%d -> %d,%v total=%d", tag(se), size, n, err, total)
 		if err != nil {
 			if isTimeout(err) {
 				if timeouts++; timeouts < 20000 {
@@ -359,23 +637,23 @@ func (r *run) reader(conn net.Conn) {
 				return
 			}
 		}
-		if think := core.TapeAt(p.Client.ReadThinkMs, i, 0); think > 0 {
+		if think := core.TapeAt(c.ReadThinkMs, i, 0); think > 0 {
 			r.pause(ms(clamp(think, 0, 10000)))
 		}
 	}
 	finish("read limit")
 }
 
-func (r *run) writer(conn net.Conn, tnc *agwpe.TNC, port *agwpe.Port) {
-	p := r.p
+func (r *run) writer(se *sess, conn net.Conn, tnc *agwpe.TNC, port *agwpe.Port) {
+	c := se.sp.Client
 	defer func() {
 		r.mu.Lock()
-		r.writerDone = true
+		se.writerDone = true
 		r.mu.Unlock()
 	}()
-	r.pause(ms(p.Client.WriterStartMs))
+	r.pause(ms(c.WriterStartMs))
 	off, uiOff := 0, 0
-	for i, st := range p.Client.Writes {
+	for i, st := range c.Writes {
 		if i >= 64 {
 			break
 		}
@@ -387,24 +665,24 @@ func (r *run) writer(conn net.Conn, tnc *agwpe.TNC, port *agwpe.Port) {
 				r.sim.Violate(prop13, "exchange", "conn-is-not-a-flusher", "the connection does not implement transport.Flusher")
 				continue
 			}
-			r.call("flush", func() error { return f.Flush() })
+			r.call(se, "flush", func() error { return f.Flush() })
 		case "sendui":
-			data := pattern(3, uiOff, clamp(st.Size, 1, 256))
+			data := pattern(se.pat(3), uiOff, clamp(st.Size, 1, 256))
 			uiOff += len(data)
-			r.call("sendui", func() error { return port.SendUI(data, "BEACON") })
+			r.call(se, "sendui", func() error { return port.SendUI(data, "BEACON") })
 		case "ping":
-			r.call("ping", func() error { return tnc.Ping() })
+			r.call(se, "ping", func() error { return tnc.Ping() })
 		default:
-			data := pattern(2, off, clamp(st.Size, 1, 4096))
+			data := pattern(se.pat(2), off, clamp(st.Size, 1, 4096))
 			off += len(data)
 			var n int
 			r.mu.Lock()
-			wi := len(r.writes)
-			r.writes = append(r.writes, writeRec{Data: data, Op: -1})
+			wi := len(se.writes)
+			se.writes = append(se.writes, writeRec{Data: data, Op: -1})
 			r.mu.Unlock()
-			idx, _ := r.callI("write", func() (err error) { n, err = conn.Write(data); return })
+			idx, _ := r.callI(se, "write", func() (err error) { n, err = conn.Write(data); return })
 			r.mu.Lock()
-			r.writes[wi].N, r.writes[wi].Op = n, idx
+			se.writes[wi].N, se.writes[wi].Op = n, idx
 			r.mu.Unlock()
 		}
 	}
@@ -441,18 +719,18 @@ func frameSizeAt(frames []int, off int) int {
 
 // waitReaderIdle returns when the reader has ended or has been blocked inside
 // Read while the simulated clock moved on, i.e. nothing is queued for it.
-func (r *run) waitReaderIdle() bool {
+func (r *run) waitReaderIdle(se *sess) bool {
 	deadline := r.sim.Now() + 500*time.Hour
-	step := ms(clamp(maxOf(r.p.Client.ReadThinkMs, 0)/2, 100, 10000))
+	step := ms(clamp(maxOf(se.sp.Client.ReadThinkMs, 0)/2, 100, 10000))
 	for r.sim.Now() < deadline {
 		r.mu.Lock()
-		idle := r.readDone || !r.readStarted || (r.inRead && r.sim.Now() > r.inReadSince)
+		idle := se.readDone || !se.readStarted || (se.inRead && r.sim.Now() > se.inReadSince)
 		r.mu.Unlock()
 		if idle {
 			return true
 		}
 		r.pause(step)
 	}
-	r.sim.Logf("cli: reader never became idle")
+	r.sim.Logf("cli: %sreader never became idle", tag(se))
 	return false
 }
